@@ -1,11 +1,13 @@
 import Mouette.Model.Proto
 import Mouette.Model.Cutting
+import Mouette.Model.CuttingCount
 /-
 Protocol front-end for C16.
   `cut <nV> <F: list of lists> <E: list of pairs> <evisited: list> <sing: list> <interior: list>`
      reply: `<cut edges after pruning> ; Q<len of queue left> ; <cut_adj: per vertex sorted list> ; B <build>`
      where `<build>` is `err:Type|err:Value|err:Key` or
-       `<faces: list of lists> ; <ref_vertex per output vertex (N = absent)> ; <pos per output vertex> ; S<stable 0/1>`
+       `<faces: list of lists> ; <ref_vertex per output vertex (N = absent)> ; <pos per output vertex> ; S<stable 0/1>
+        ; X <V'> <effective unions> <|uncut|> <edge hypotheses hold 0/1, - when 3F > 600 (not evaluated)>`
   `prune <nV> <E> <cut> <sing>`  → `<cut after pruning> ; Q<queue left>`
   `build <nV> <F> <uncut pairs>` → `<build>`
 -/
@@ -24,7 +26,12 @@ def fmtBuild (nV : Nat) (F : List (List Nat)) (uncut : List (Nat × Nat)) : Stri
   | .ok o =>
     let nOut := o.pos.length
     let ref := (List.range nOut).map (fun k => fmtOptNat (lastWrite o.ref k))
-    s!"{fmtFaces o.faces} ; {" ".intercalate ref} ; {" ".intercalate (o.pos.map fmtOptNat)} ; S{fmtBool (stableRoots o)}"
+    let x := match unionPairs (halfEdges F) (cornerFaces F) uncut with
+      | none => "X -"
+      | some ps =>
+        let hyp := if 3 * F.length ≤ 600 then fmtBool (edgeHyp o F.length (twins ps)) else "-"
+        s!"X {o.pos.length} {effCount (ufRange (3 * F.length)) ps} {uncut.length} {hyp}"
+    s!"{fmtFaces o.faces} ; {" ".intercalate ref} ; {" ".intercalate (o.pos.map fmtOptNat)} ; S{fmtBool (stableRoots o)} ; {x}"
 
 def fmtAdj (nV : Nat) (E : List (Nat × Nat)) (cut : List Nat) : String :=
   " ".intercalate ((List.range nV).map (fun v => fmtNats ((adj E cut v).mergeSort (· ≤ ·))))
